@@ -101,14 +101,29 @@ func obsParas(ps []control.Paragraph, err error) J {
 	return J{"ok": true, "paras": parasToJ(ps)}
 }
 
+// typedPara: the raw paragraph plus typed (optional) fields for the names the token documents use
+type typedPara struct {
+	control.Paragraph
+	A string
+	B string
+	C string
+}
+
 func readSlice(doc string) J {
-	var into []rawPara
+	var into []typedPara
 	err := control.Unmarshal(&into, strings.NewReader(doc))
 	ps := []control.Paragraph{}
+	typed := []interface{}{}
 	for _, x := range into {
 		ps = append(ps, x.Paragraph)
+		typed = append(typed, []interface{}{B(x.A), B(x.B), B(x.C)})
 	}
-	return obsParas(ps, err)
+	o := obsParas(ps, err)
+	if err != nil {
+		typed = []interface{}{}
+	}
+	o["typed"] = typed
+	return o
 }
 
 func readDecodeLoop(doc string) J {
@@ -254,7 +269,16 @@ func execControlRW(vec J, out *Writer) {
 				}
 			}
 		}()
-		out.Put(J{"ev": "write_fault", "in": vec, "errs": errs, "sink": BB(sink.buf.Bytes()), "writes": sink.calls, "fired": sink.calls >= sink.failAt})
+		// afterwards, the FIRST paragraph written once more to a healthy buffer: a failed write leaves nothing behind that
+		// a later write would emit
+		var after bytes.Buffer
+		afterOK := false
+		func() {
+			defer func() { recover() }()
+			afterOK = len(ps) > 0 && ps[0].WriteTo(&after) == nil
+		}()
+		out.Put(J{"ev": "write_fault", "in": vec, "errs": errs, "sink": BB(sink.buf.Bytes()), "writes": sink.calls, "fired": sink.calls >= sink.failAt,
+			"after_ok": afterOK, "after": BB(after.Bytes())})
 	case "rw":
 		doc := S(vec["doc"])
 		r0, err := readAll(doc)
